@@ -189,3 +189,39 @@ Theorem C04_pipeline_coherence :
     forall m, In m r -> good F32ops (coherence F32ops m) /\ fle F32ops (coherence F32ops m) (fone F32ops) = true.
 Proof. exact pipeline_coherence. Qed.
 Print Assumptions C04_pipeline_coherence.
+
+From Model Require Import Utf Codecs.
+From Proofs Require Import UtfFacts CodecFacts UnicodeForms.
+Open Scope list_scope.
+
+(* the same two clauses for the pipeline that also DECODES with the models (what DETECTFULL runs): the remaining
+   hypothesis is DecodeLen of the CJK oracle only *)
+Theorem C04_pipeline_dec_chaos :
+  forall (B : base_oracles) b cfg r,
+    (forall e l t, b_sdecode B e l = Some t -> len t <= len l) ->
+    b <> [] -> len b < 2 ^ 64 -> fisnan F32ops (threshold F32ops cfg) = false ->
+    from_bytes F32ops (pipeline_dec B) b cfg = Ok r ->
+    exists inc exc, shape (chaos_ok F32ops (make_ctx F32ops (pipeline_dec B) b cfg inc exc))
+                          (chaos_fb F32ops (make_ctx F32ops (pipeline_dec B) b cfg inc exc)) r.
+Proof. exact pipeline_dec_chaos. Qed.
+Print Assumptions C04_pipeline_dec_chaos.
+
+Theorem C04_pipeline_dec_coherence :
+  forall (B : base_oracles) b cfg r,
+    b <> [] -> 1 <= steps F32ops cfg -> steps F32ops cfg < 2 ^ 22 -> from_bytes F32ops (pipeline_dec B) b cfg = Ok r ->
+    forall m, In m r -> good F32ops (coherence F32ops m) /\ fle F32ops (coherence F32ops m) (fone F32ops) = true.
+Proof. exact pipeline_dec_coherence. Qed.
+Print Assumptions C04_pipeline_dec_coherence.
+
+(* last clause, with the UTF-8 codec inside the model: the bytes of EVERY string (the UTF-8 form of any sequence of
+   Unicode scalar values, with or without a leading U+FEFF) yield at least one match when the fall-back is on and
+   no filter is given -- the crate's automaton accepts every encoded scalar value (UtfFacts.utf8_encode_char_is_char) *)
+Theorem C04_every_string_yields_a_match :
+  forall (B : base_oracles) t cfg r, Forall scalar t ->
+    include_encodings F32ops cfg = [] -> exclude_encodings F32ops cfg = [] -> enable_fallback F32ops cfg = true ->
+    from_bytes F32ops (pipeline_dec B) (utf8_encode t) cfg = Ok r -> r <> [].
+Proof.
+  intros B t cfg r Ht Hi He Hf. apply (valid_utf8_yields_match F32ops (pipeline_dec B) _ cfg r Hi He Hf).
+  exact (every_string_is_valid_utf8 B t Ht).
+Qed.
+Print Assumptions C04_every_string_yields_a_match.
